@@ -6,7 +6,10 @@ FLOAT_KINDS = [
     "ramp", "offset", "scaled_small", "scaled_big", "heavy", "nested",
 ]
 EXACT_KINDS = ["constant", "piecewise_const", "small_alphabet", "dyadic"]
-ALL_KINDS = FLOAT_KINDS + EXACT_KINDS
+# flat stretches of values that are NOT exactly representable: every cost-based score is zero only
+# up to rounding error there (tiny negative scores, tuned thresholds that are slightly negative)
+DEGENERATE_KINDS = ["flat", "steps"]
+ALL_KINDS = FLOAT_KINDS + EXACT_KINDS + DEGENERATE_KINDS
 
 
 def _positions(rng, n, k, lo=1):
@@ -123,6 +126,15 @@ def gen_data(rng, n, p, kind=None, boundary=None):
         edges = [0] + cpts + [n]
         for a, b in zip(edges[:-1], edges[1:]):
             X[a:b] = rng.integers(-3, 4, size=p).astype(float)
+        meta["cpts"] = cpts
+    elif kind == "flat":
+        X = np.tile(rng.choice([0.1, 0.3, 1 / 3, 1e-3, 7.7, 123.456, -0.7], size=p), (n, 1))
+    elif kind == "steps":
+        cpts = _positions(rng, n, int(rng.integers(1, 4)))
+        X = np.zeros((n, p))
+        edges = [0] + cpts + [n]
+        for a, b in zip(edges[:-1], edges[1:]):
+            X[a:b] = rng.choice([0.1, 0.2, 0.3, 0.7, 1 / 3, 7.7, -0.7, 123.456], size=p)
         meta["cpts"] = cpts
     elif kind == "small_alphabet":
         X = rng.integers(0, 3, size=(n, p)).astype(float)
